@@ -445,6 +445,15 @@ class Loops:
             raise PathEnd()
         else:
             # loop finished: kk == n_iter
+            cur = getattr(self.ctx, 'current', None)
+            if cur is not None and cur.key in self.ctx.reports:
+                # vacuity cover: the state AFTER the loop must be possible for a run of at least one iteration (a contradictory
+                # invariant, or an event / variable the cut failed to generalise, makes it impossible: see DESIGN 11, soundness 15)
+                live = self.ctx.reports[cur.key].__dict__.setdefault('loop_exit_live', {})
+                key_ = '%s#loop%d' % (fq, k)
+                if not live.get(key_):
+                    from . import prover as _pr
+                    live[key_] = _pr.feasible(self.ctx.axioms(True), I.st.pc, kk >= 1, timeout_ms=1000)
             I.ex_block(node.orelse, frame)
 
     def concrete_items(self, I, it):
